@@ -158,6 +158,16 @@ def extract():
         if isinstance(n, ast.Assign) and any(isinstance(t, ast.Attribute) and t.attr == "create_single_instance_lock"
                                              for t in n.targets) and isinstance(n.value, ast.Call):
             lock_kind = ast.unparse(n.value.func)
+    # every Daemon object gets its own table and its own lock, in __init__; neither exists at class level
+    init_tables = [ast.unparse(n) for n in fns["__init__"].body
+                   if isinstance(n, ast.Assign) and any(isinstance(t, ast.Attribute) and t.attr in
+                                                        ("_pyroInstances", "create_single_instance_lock") for t in n.targets)]
+    class_level = []
+    for st in daemon.body:
+        if isinstance(st, (ast.Assign, ast.AnnAssign)):
+            targets = st.targets if isinstance(st, ast.Assign) else [st.target]
+            if any(isinstance(t, ast.Name) and t.id in ("_pyroInstances", "create_single_instance_lock") for t in targets):
+                class_level.append(ast.unparse(st))
     callers = []
     for top in ast.walk(tree):
         if isinstance(top, ast.FunctionDef):
@@ -224,6 +234,10 @@ def createShape : String := {lean_str(create_shape)}
 def instShape : List (String × Nat × Nat) := [{rows}]
 def lockKind : String := {lean_str(lock_kind)}
 def getInstanceCallers : List String := {lean_strs(callers)}
+/-- top-level statements of `Daemon.__init__` that assign the single-instance table / its lock, and class-level
+    assignments of the same names in `class Daemon` -/
+def daemonInitTables : List String := {lean_strs(init_tables)}
+def daemonClassLevelTables : List String := {lean_strs(class_level)}
 /-- `behavior(instance_mode=..., instance_creator=...)`: defaults, outer statements, `_behavior(clazz)` -/
 def behaviorDefaults : List String := {lean_strs(beh_defaults)}
 def behaviorOuter : String := {lean_str(beh_outer)}
